@@ -48,6 +48,7 @@ static bool          main_idle;
 static unsigned long delay_at = (unsigned long) -1, delay_until;
 static int           delayed = -1;
 static unsigned long auto_jumps, auto_jump_ms;
+static nni_time      jump_slack; // see sim_jump_slack
 
 // ---- mutex side table (address -> owner) ----
 #define MTAB 8192
@@ -189,6 +190,9 @@ yield_next(void)
 		if (best > vnow) {
 			auto_jumps++;
 			auto_jump_ms += (unsigned long) (best - vnow);
+			// with slack the jump lands past the deadline, so expiry tests
+			// written `deadline < now` fire instead of spinning
+			best += jump_slack;
 		}
 		vnow = best;
 	}
@@ -490,6 +494,7 @@ void sim_arm_delay(int offset, int len) { delay_at = steps + offset; delay_until
 nni_time sim_now(void) { return vnow; }
 void sim_jumps(unsigned long *n, unsigned long *ms) { *n = auto_jumps; *ms = auto_jump_ms; }
 void sim_seed_user(uint64_t s) { rng_user = s; }
+void sim_jump_slack(int ms) { jump_slack = ms; }
 
 long long sim_now_ms(void) { return (long long) vnow; }
 
